@@ -31,7 +31,6 @@ let string_of_dec d =
   let n = Array.length d in String.init n (fun i -> Char.chr (48 + d.(n - 1 - i)))
 let string_of_pos p = string_of_dec (dec_of_pos p)
 let string_of_n = function N0 -> "0" | Npos p -> string_of_pos p
-let string_of_z = function Z0 -> "0" | Zpos p -> string_of_pos p | Zneg p -> "-" ^ string_of_pos p
 
 (* decimal string -> bits by repeated halving *)
 let pos_of_string (s : string) : positive option =
@@ -50,11 +49,6 @@ let pos_of_string (s : string) : positive option =
   | [] -> None
   | _ :: rest -> Some (List.fold_left (fun p b -> if b = 1 then XI p else XO p) XH rest)
 let n_of_string s = match pos_of_string s with None -> N0 | Some p -> Npos p
-let z_of_string s =
-  if String.length s > 0 && s.[0] = '-' then
-    (match pos_of_string (String.sub s 1 (String.length s - 1)) with None -> Z0 | Some p -> Zneg p)
-  else (match pos_of_string s with None -> Z0 | Some p -> Zpos p)
-
 let hexval c = match c with
   | '0'..'9' -> Char.code c - 48 | 'a'..'f' -> Char.code c - 87 | 'A'..'F' -> Char.code c - 55
   | _ -> failwith "hex"
